@@ -96,7 +96,9 @@ func (r *rule) match(path string) (bool, error) {
 }
 
 func (r *rule) compile() error {
-	regStr := "^"
+	// The "s" flag lets "." match a newline too: path names may contain one,
+	// and "**" must span them like any other character.
+	regStr := "(?s)^"
 	pattern := r.val
 	// Go through the pattern and convert it to a regexp.
 	// Use a scanner to support utf-8 chars.
